@@ -475,8 +475,9 @@ def gen_decl(rng, name, nvar=None, max_disc=None, bits=None, with_alts=None, wit
             for _ in range(rng.choice([1, 1, 2, 3, 5])):
                 if free:
                     alts.append(free.pop())
+        split = sorted(rng.sample(range(len(alts)), rng.randrange(0, len(alts)))) if len(alts) > 1 and rng.random() < 0.5 else []
         variants.append(dict(name=nm, disc=dv, style=rng.choice(STYLES), alts=[(a, rng.choice(STYLES[:5])) for a in alts],
-                             display=display, ch=ch))
+                             alt_split=split, display=display, ch=ch, attr_order=rng.random() < 0.3))
     mx = max(discs)
     minb = mx.bit_length()
     if bits == "none":
@@ -500,10 +501,21 @@ def emit_enum(d):
     out.append("#[repr(u8)]")
     out.append(f"pub enum {d['name']} {{")
     for v in d["variants"]:
-        if v["display"] is not None:
+        if v["display"] is not None and not v.get("attr_order"):
             out.append(f"    #[display({char_lit(v['display'])})]")
         if v["alts"]:
-            out.append("    #[alt(" + ", ".join(lit(a, s) for a, s in v["alts"]) + ")]")
+            # the alternatives may be spread over several #[alt(..)] attributes (v["alt_split"])
+            groups, cur = [], []
+            for j, (a_, s_) in enumerate(v["alts"]):
+                cur.append(lit(a_, s_))
+                if j in v.get("alt_split", ()):
+                    groups.append(cur); cur = []
+            if cur:
+                groups.append(cur)
+            for gi, g_ in enumerate(groups):
+                out.append("    #[alt(" + ", ".join(g_) + ("," if (len(g_) + gi) % 3 == 0 else "") + ")]")
+        if v["display"] is not None and v.get("attr_order"):
+            out.append(f"    #[display({char_lit(v['display'])})]")   # after the #[alt] attributes
         out.append(f"    {v['name']} = {lit(v['disc'], v['style'])},")
     out.append("}")
     dn = d["name"].upper() + "_DECL"
@@ -679,7 +691,7 @@ def run_c17(pid, tier, seed, wd, env):
         res["samples"].append({"malformed": [k for k, _ in MALFORMED], "errors_on_lines": sorted(errs)[:20]})
     res["rule"] = ("stage 1 (accelerator, when available): parse_width for all 256 largest discriminants x declared width {none,1..8}, parse_variants on generated declarations. "
                    "stage 2 (authoritative): generated enum declarations as plain source (2..40 variants, distinct discriminants in 0..=255 written as decimal / 0b / 0b_ / 0x / byte literals, "
-                   "optional #[alt] lists disjoint from all discriminants, optional #[display], optional #[bits] from minimal to 8; corner set always included: largest discriminant "
+                   "optional #[alt] lists disjoint from all discriminants (in one or spread over several #[alt] attributes, with or without trailing comma, before or after #[display]), optional #[display], optional #[bits] from minimal to 8; corner set always included: largest discriminant "
                    "1,2,3,4,7,8,15,16,127,128,254,255 without #[bits], and declared widths 1,3,7,8) compiled with the real derive in debug and release; each enum is judged at run time by "
                    "derive_check::check_enum against its own declaration (BITS, items order/encoding, display, all 256 bit patterns, all 256 bytes as characters, unchecked decoders, and Seq<Derived> "
                    "parse/display/packing/slicing/reverse/windows/kmers laws); malformed declarations (too-small width x3, missing / no / float / string discriminants, struct, tuple struct, union) "
